@@ -45,6 +45,11 @@ STRATA = {
     "hybrid36_edge": (300, 6000),
 }
 W4_CHUNK, W5_CHUNK = 4096, 65536
+# functions that must leave their arguments untouched (vf.core.PurityMonitor; '!' = the object itself is watched too)
+PURE = [
+    "biotite.structure.io.pdb.file:PDBFile.set_structure",
+    "biotite.structure.io.pdb.convert:set_structure",
+]
 REQUIRED_ORACLES = [
     "columns", "record_structure", "roundtrip_fields", "roundtrip_coord", "oversize_refused", "within_limits_accepted",
     "box_written", "box_roundtrip", "conect_records", "bonds_roundtrip",
